@@ -4,7 +4,7 @@ the failing-input search.  It is not part of the trusted base of any theorem: th
 that the implementation is compared with is the OCaml extraction of the Coq definitions."""
 
 PLAIN, FIXED, VARYING = 0, 1, 2
-TBLOB, TUINT, TSINT, TU8, TS8, TBYTE, TTRK, TTRKC, TTRKMA, TTRKCA, TFLT = range(11)
+TBLOB, TUINT, TSINT, TU8, TS8, TBYTE, TTRK, TTRKC, TTRKMA, TTRKCA, TFLT, TTRKCC, TTRKMC = range(13)
 
 
 class Param:
@@ -17,7 +17,7 @@ class Param:
         return (self.kind, self.size, self.align, self.ty)
 
     def __repr__(self):
-        return "%s%s%d@%d" % ("PFV"[self.kind], "BUSusyTCMAF"[self.ty], self.size, self.align)
+        return "%s%s%d@%d" % ("PFV"[self.kind], "BUSusyTCMAFcm"[self.ty], self.size, self.align)
 
 
 def align_up(x, a):
@@ -161,8 +161,11 @@ def nfixed(L):
     return sum(1 for p in L if p.kind == FIXED)
 
 
-def ntc(p):
-    return p.ty in (TTRK, TTRKC)
+def ntc(p, mv=None):
+    """non-trivial copy (mv False) / move (mv True) constructor; mv None: either"""
+    if mv is None:
+        return p.ty in (TTRK, TTRKC, TTRKCC, TTRKMC)
+    return p.ty in ((TTRK, TTRKC, TTRKMC) if mv else (TTRK, TTRKC, TTRKCC))
 
 
 def ntd(p):
@@ -170,7 +173,8 @@ def ntd(p):
 
 
 def all_triv(L):
-    return all(not ntc(p) and not ntd(p) for p in L)
+    """trivially relocatable: move constructor and destructor trivial (what erase / reserve dispatch on)"""
+    return all(not ntc(p, True) and not ntd(p) for p in L)
 
 
 def wf(L):
